@@ -2,12 +2,39 @@ import ArrModel.C08
 import Driver.Proto
 /-! C08 driver: *index protocol*.  The model is run on a tag array with lane-collecting 1-D bodies, so every output
 position answers with the list of input positions (the lane) the real operation must have been applied to
-(for scans: the position inside the lane, then the lane). -/
+(for scans: the position inside the lane, then the lane).
+
+Answer spelling: `shape:elem|elem|…`.  A reduction element is the lane `t0,t1,…`.  A scan element is `j,t0,t1,…` (position
+inside the lane, then the lane) the first time that lane occurs in the answer and `j=k` afterwards, `k` being the output
+position at which the very same lane was spelled out (a scan over a lane of length n names the lane n times; without this the
+answer for one lane of 4100 elements would be 16.8 million numbers).  The lanes themselves are exactly what the model computes;
+only the spelling is shortened (full structural equality of the lane, not a hash).
+
+The main loop keeps the answers of the last few `(family, array, axis, keepdims)` keys: the answer of the model does not
+depend on the operation inside a family, on the element type or on the value seed, which only the Rust side reads. -/
 namespace Driver.C08
 open ArrModel Driver
 
+/-- an empty LANE is spelled `e` (an array without output positions is `-`) -/
+def showLane (l : List Int) : String := if l.isEmpty then "e" else showIntList l
+
 def showLaneArr (a : Arr (List Int)) : String :=
-  showNatList a.shape ++ ":" ++ (if a.elems.isEmpty then "-" else "|".intercalate (a.elems.map showIntList))
+  showNatList a.shape ++ ":" ++ (if a.elems.isEmpty then "-" else "|".intercalate (a.elems.map showLane))
+
+/-- spell a list of scan elements `j :: lane`, naming every distinct lane once -/
+def showScanElems : List (List Int) → Nat → List (Int × List Int × Nat) → List String → List String
+  | [], _, _, acc => acc.reverse
+  | e :: rest, p, seen, acc =>
+    match e with
+    | [] => showScanElems rest (p + 1) seen ("-" :: acc)
+    | j :: lane =>
+      let key := lane.headD (-1)
+      match seen.find? (fun (h, l, _) => h == key && l == lane) with
+      | some (_, _, k) => showScanElems rest (p + 1) seen ((toString j ++ "=" ++ toString k) :: acc)
+      | none => showScanElems rest (p + 1) ((key, lane, p) :: seen) (showIntList e :: acc)
+
+def showScanArr (a : Arr (List Int)) : String :=
+  showNatList a.shape ++ ":" ++ (if a.elems.isEmpty then "-" else "|".intercalate (showScanElems a.elems 0 [] []))
 
 def reduceBody (arr : Arr Int) : Res (Arr (List Int)) := .ok (Arr.single arr.elems)
 def countBody (arr : Arr Int) (kd : Option Bool) : Res (Arr (List Int)) := Arr.keepdimsTail arr.ndim kd (Arr.single arr.elems)
@@ -28,10 +55,36 @@ def handle (op : String) (args : List String) : Option String :=
     let a ← parseArr? a; let ax ← parseOpt? parseInt? ax; let kd ← parseKd? kd
     if reduceOps.contains op then some (showRes showLaneArr (a.reduceAxis 0 [] ax reduceBody))
     else if countOps.contains op then some (showRes showLaneArr (a.countAxis 0 [] ax kd countBody))
-    else if scanOps.contains op then some (showRes showLaneArr (a.scanAxis 0 [] ax scanBody))
+    else if scanOps.contains op then some (showRes showScanArr (a.scanAxis 0 [] ax scanBody))
     else none
   | _ => none
 
+/-- what the answer of `handle` depends on -/
+def keyOf (line : String) : Option String :=
+  match line.trimAscii.toString.splitOn " " with
+  | [full, _, a, ax, kd, _] =>
+    let op := match full.splitOn "." with | [_, op] => op | _ => full
+    let fam := if reduceOps.contains op then some "R" else if countOps.contains op then some "C" else if scanOps.contains op then some "S" else none
+    fam.map (fun f => " ".intercalate [f, a, ax, kd])
+  | _ => none
+
+partial def loop (hin hout : IO.FS.Stream) (cache : List (String × String)) : IO Unit := do
+  let line ← hin.getLine
+  if line.isEmpty then return ()
+  match keyOf line with
+  | some key =>
+    match cache.lookup key with
+    | some ans => hout.putStrLn ans; loop hin hout cache
+    | none =>
+      let ans := dispatchWith handle line
+      hout.putStrLn ans
+      loop hin hout ((key, ans) :: cache.take 23)
+  | none => hout.putStrLn (dispatchWith handle line); loop hin hout cache
+
 end Driver.C08
 
-def main : IO Unit := Driver.runDriver Driver.C08.handle
+def main : IO Unit := do
+  let hin ← IO.getStdin
+  let hout ← IO.getStdout
+  Driver.C08.loop hin hout []
+  hout.flush
